@@ -882,8 +882,7 @@ def replay(ctx, payload):
         logging.disable(logging.CRITICAL)
         combo = tuple(fi["combo"])
         try:
-            real = c09adapt.real_chain(combo)
-            msg = c09adapt.glue_oracle(combo, real)
+            msg = c09adapt.replay_combo(combo)
         except Exception as ex:
             msg = "add_adapter raised %r" % (ex,)
         if msg:
